@@ -50,6 +50,27 @@ Inductive apred : Type :=
 
 Definition atriple := (term * apred * term)%type.
 
+(* decidable equality, for executable membership tests *)
+Definition term_eqb (a b : term) : bool :=
+  match a, b with
+  | TUri u, TUri v => name_eqb u v
+  | TBn j, TBn k => Nat.eqb j k
+  | TEn j, TEn k => Nat.eqb j k
+  | TRoot, TRoot => true
+  | _, _ => false
+  end.
+Definition apred_eqb (p q : apred) : bool :=
+  match p, q with
+  | PType, PType | PSubtypeOf, PSubtypeOf | PVia, PVia | PContainsType, PContainsType
+  | PContainsOperation, PContainsOperation | PSubClassOf, PSubClassOf => true
+  | PParam i, PParam j => Nat.eqb i j
+  | _, _ => false
+  end.
+Definition atriple_eqb (x y : atriple) : bool :=
+  term_eqb (fst (fst x)) (fst (fst y)) && apred_eqb (snd (fst x)) (snd (fst y)) &&
+  term_eqb (snd x) (snd y).
+Definition tr_has (tr : list atriple) (x : atriple) : bool := existsb (atriple_eqb x) tr.
+
 (* local names in the TF namespace (ASCII); graph.py:252-312 with the repair *)
 Definition pred_name (p : apred) : list nat :=
   match p with
